@@ -1205,6 +1205,25 @@ func (mgr *Manager) UpdateTag(name string, operation UpdateTagOperation) error {
 			if !ok {
 				return fmt.Errorf("unknown tag %q", name)
 			}
+			if newTag != nil {
+				// check if all referenced tags exist and none of them depends on this tag
+				seen := map[string]struct{}{}
+				for queue := newTag.referencedTags(); len(queue) != 0; queue = queue[1:] {
+					tn := queue[0]
+					if tn == name {
+						return errors.New("reference cycle not allowed in tags")
+					}
+					if _, ok := seen[tn]; ok {
+						continue
+					}
+					seen[tn] = struct{}{}
+					t, ok := mgr.tags[tn]
+					if !ok {
+						return fmt.Errorf("unknown referenced tag %q", tn)
+					}
+					queue = append(queue, t.referencedTags()...)
+				}
+			}
 			if info.color != "" {
 				tag.color = info.color
 			}
